@@ -1,3 +1,4 @@
+import BoolFn.Proofs.CsvQuoted
 import BoolFn.Proofs.Csv
 import BoolFn.Proofs.Codec
 /-! # C16 — CSV import is faithful to the file and rejects incomplete or ambiguous tables
